@@ -62,9 +62,10 @@ def counter_inv(eng, m, k):
     return z3.Implies(z3.Select(m.present, k), z3.And(z3.ULT(L, bv((1 << 64) - 2, 64)), z3.ULT(hist.len, bv(H, 64)), *ent))
 
 
-def system_value(eng, st, m, stats_vals):
-    # statistics fields this check does not know (added by a later change) are arbitrary 64-bit values
-    stats = mk_struct(eng, "CounterStats", {n: v for n, v in zip(STATS, stats_vals)}, fill=lambda f: eng.fresh_bv("stats." + f, 64))
+def system_value(eng, st, m, stats_vals, fresh_start=False):
+    # statistics fields this check does not know (added by a later change) are arbitrary 64-bit values -- or, for a history that starts at a freshly constructed
+    # system, their Default (zero), which is what the constructor and the native driver give them
+    stats = mk_struct(eng, "CounterStats", {n: v for n, v in zip(STATS, stats_vals)}, fill=(lambda f: bv(0, 64)) if fresh_start else (lambda f: eng.fresh_bv("stats." + f, 64)))
     counters_ref = eng.alloc(st, m)
     stats_ref = eng.alloc(st, stats)
     return mk_struct(eng, "MonotonicCounterSystem", {"counters": counters_ref, "storage_path": VOpaque("path"), "sync_interval": mk_time(bv(30, 64), bv(0, 32), "Duration"),
@@ -258,7 +259,7 @@ def build_cleanup(ck, src, obs=None):
     return {"eng": eng, "hyps": hyps, "goals": {g: z3.Implies(pc, f) for g, f in G.items()}, "reach": {"reach_end": pc}}
 
 
-def build_persist(ck, src, obs=None):
+def build_persist(ck, src, obs=None, history=False):
     """sync_counters (snapshot + serialise + write) followed by a restart (new_with_sync_interval -> load_counters): the reloaded store holds, for every peer,
     exactly the counter that was persisted -- so a number it had accepted is classified as a replay after the restart.  The file system and postcard are the
     ENVIRONMENT: a write stores the serialised image or fails, a read returns what was stored, (de)serialisation is the identity on the image."""
@@ -276,8 +277,8 @@ def build_persist(ck, src, obs=None):
     hyps = list(src.hyps) + [ku != ko, counter_inv(eng, m0, ku), counter_inv(eng, m0, ko)] + [z3.ULT(s, bv(1 << 20, 64)) for s in stats_vals]
     if obs is None:
         st = State()
-        sysv, cref = system_value(eng, st, m0, stats_vals)
-        disk = {"image": None, "written": z3.BoolVal(False), "maps": []}
+        sysv, cref = system_value(eng, st, m0, stats_vals, fresh_start=history)
+        disk = {"written": z3.BoolVal(False), "maps": [], "writes": []}
         write_ok = src.bool("env.write_ok")
 
         def ok(v):
@@ -285,40 +286,37 @@ def build_persist(ck, src, obs=None):
 
         def h_ser(e, s_, a, d, c, m):
             from summaries import deref
-
             from values import VBlob
 
             disk["maps"].append(deref(e, s_, a[0]))
             return ok(VBlob(bv(0x1000 + len(disk["maps"]), 64), e.fresh_bv("image.len", 64)))
 
         def h_write(e, s_, a, d, c, m):
-            disk["image"] = a[1]
-            disk["written"] = z3.And(s_.pc, write_ok)
+            # the file now holds the image serialised last on this path -- on the paths on which the write happens and succeeds
+            if not disk["maps"]:
+                raise harness.SymError("write of something that was not serialised by the store")
+            cond = z3.And(s_.pc, write_ok)
+            disk["writes"].append((cond, len(disk["maps"]) - 1))
+            disk["written"] = z3.Or(disk["written"], cond)
             return VStruct([VEnum(RESULT, z3.If(write_ok, bv(0, 8), bv(1, 8)), {0: (UNIT,), 1: (VOpaque("io::Error"),)})], "ReadyFuture")
 
         def h_exists(e, s_, a, d, c, m):
-            return z3.BoolVal(True)
+            return disk["written"]
 
         def h_read(e, s_, a, d, c, m):
-            if disk["image"] is None:
-                raise harness.SymError("read before any write")
-            return VStruct([ok(disk["image"])], "ReadyFuture")
+            from values import VBlob
+
+            return VStruct([ok(VBlob(bv(0x999, 64), e.fresh_bv("file.len", 64)))], "ReadyFuture")
 
         def h_de(e, s_, a, d, c, m):
-            from summaries import deref
+            from values import merge
 
-            from values import VBlob, VBytes
-
-            img = deref(e, s_, a[0])
-            ident = None
-            if isinstance(img, VBlob):
-                ident = img.id
-            elif isinstance(img, VBytes) and len(img.chunks) == 1 and img.chunks[0][0] == "o":
-                ident = img.chunks[0][1]
-            n = z3.simplify(ident).as_long() - 0x1001 if ident is not None and z3.is_bv_value(z3.simplify(ident)) else -1
-            if not (0 <= n < len(disk["maps"])):
-                raise harness.SymError(f"deserialising something that was not serialised by the store: {img!r} {getattr(img, 'chunks', None)}")
-            return ok(disk["maps"][n])
+            cur = None
+            for cond, n in disk["writes"]:
+                cur = disk["maps"][n] if cur is None else merge(cond, disk["maps"][n], cur)
+            if cur is None:
+                raise harness.SymError("the store is reloaded although no path ever writes it")
+            return ok(cur)
 
         def h_mkdir(e, s_, a, d, c, m):
             return VStruct([ok(UNIT)], "ReadyFuture")
@@ -329,8 +327,8 @@ def build_persist(ck, src, obs=None):
         S = eng.summaries
         S.insert(0, (re.compile(r"^(postcard::)?to_stdvec::<.*HashMap<.*PeerCounter>>$"), h_ser, "ENVIRONMENT postcard::to_stdvec(&counters) -> the serialised image (identity; serde derive output is not executed)"))
         S.insert(0, (re.compile(r"^tokio::fs::write::<.*>$"), h_write, "ENVIRONMENT tokio::fs::write -> stores the image or fails (arbitrary)"))
-        S.insert(0, (re.compile(r"^(std::path::)?Path::exists$|^(std::path::)?PathBuf::exists$"), h_exists, "Path::exists -> true (the file was written before the restart)"))
-        S.insert(0, (re.compile(r"^tokio::fs::read::<.*>$"), h_read, "ENVIRONMENT tokio::fs::read -> the image last written"))
+        S.insert(0, (re.compile(r"^(std::path::)?Path::exists$|^(std::path::)?PathBuf::exists$"), h_exists, "Path::exists -> true iff a write happened and succeeded on this path"))
+        S.insert(0, (re.compile(r"^tokio::fs::read::<.*>$"), h_read, "ENVIRONMENT tokio::fs::read -> the file content (the image written last on this path)"))
         S.insert(0, (re.compile(r"^(postcard::)?from_bytes::<.*HashMap<.*PeerCounter>>$"), h_de, "ENVIRONMENT postcard::from_bytes -> the map whose image this is"))
         S.insert(0, (re.compile(r"^tokio::fs::create_dir_all::<.*>$"), h_mkdir, "tokio::fs::create_dir_all -> Ok"))
         S.insert(0, (re.compile(r"^(std::path::)?Path(Buf)?::parent$"), h_parent, "Path::parent -> None (no directory to create)"))
@@ -338,6 +336,20 @@ def build_persist(ck, src, obs=None):
         sref = sysv.f[eng.struct_adt("MonotonicCounterSystem").field_index("stats")]
         st1, out1 = run_async(eng, ck.fn_in("MonotonicCounterSystem", "sync_counters"), [eng.alloc(st, cref), path, eng.alloc(st, sref)], st)
         sync_ok = out1.idx == bv(0, 8)
+        if history:
+            # history: sync, then one more submission is processed, then sync again, then the restart
+            hyps.append(write_ok)
+            eng.clock_readings = []
+            rsys = eng.alloc(st1, sysv)
+            st1, outv = run_async(eng, ck.fn_in("MonotonicCounterSystem", "validate_sequence"), [rsys, eng.alloc(st1, uval), src.bv("seq", 64), src.bytes("hash", 32)], st1)
+            sys_reads = [r for r in eng.clock_readings if r.ty == "SystemTime"]
+            now = src.pin("now.s", sys_reads[0].f[0])
+            st1, out1b = run_async(eng, ck.fn_in("MonotonicCounterSystem", "sync_counters"), [eng.alloc(st1, cref), path, eng.alloc(st1, sref)], st1)
+            # every wall-clock reading of the history falls into one second (replayed through the clock shim)
+            for r in [r for r in eng.clock_readings if r.ty == "SystemTime"][1:]:
+                src.hyps.append(r.f[0] == now)
+            hyps += [h for h in src.hyps if not any(h is x for x in hyps)]
+            sync_ok = z3.And(sync_ok, outv.idx == bv(0, 8), out1b.idx == bv(0, 8))
         m_mid = eng.load(st1, cref)
         st2, out2 = run_async(eng, ck.fn_in("MonotonicCounterSystem", "new_with_sync_interval"), [VOpaque("path"), mk_time(bv(30, 64), bv(0, 32), "Duration")], st1)
         load_ok = out2.idx == bv(0, 8)
@@ -362,6 +374,9 @@ def build_persist(ck, src, obs=None):
                       z3.Implies(z3.Select(a.present, k), z3.And(*[x == y for x, y in zip(flatten(sel(a, k)), flatten(sel(b, k)))])))
 
     G = {}
+    if history:
+        G["a_store_reloaded_after_sync_accept_sync_holds_the_counters_as_they_were_at_the_last_sync"] = z3.Implies(sync_ok, z3.And(load_ok, same(m_mid, m1, ku), same(m_mid, m1, ko)))
+        return {"eng": eng, "hyps": hyps, "goals": {g: z3.Implies(pc, f) for g, f in G.items()}, "reach": {"reach_reloaded": z3.And(pc, sync_ok, load_ok, z3.Select(m_mid.present, ku))}}
     G["a_successful_sync_has_written_the_counters"] = sync_ok == written
     G["sync_does_not_change_the_live_counters"] = z3.And(same(m0, m_mid, ku), same(m0, m_mid, ko))
     G["a_store_reloaded_after_a_sync_holds_exactly_the_persisted_counters"] = z3.Implies(sync_ok, z3.And(load_ok, same(m0, m1, ku), same(m0, m1, ko)))
@@ -411,6 +426,21 @@ def register_all(ck, tier):
 
     ck.guarded("persist_and_reload", reg4)
 
+    def reg5():
+        src = Src()
+        params = {"history": True}
+        R = build_persist(ck, src, None, True)
+        rp = harness.make_replayer(ck, "monotonic_counter", "persist", lambda s, obs: build_persist(ck, s, obs, True), params)
+        ck.register_src("persist", params, src)
+        for g, f in R["goals"].items():
+            ck.prove(f"sync_accept_sync_reload/{g}", R["eng"], R["hyps"], f, on_sat=rp, meta={"goal": g})
+        for g, f in R["reach"].items():
+            ck.reach(f"sync_accept_sync_reload/{g}", R["eng"], R["hyps"], f)
+        ck.side("sync_accept_sync_reload/side", R["eng"], R["hyps"], on_sat=rp)
+        ck.out.samples.append({"obligation": "sync_counters; validate_sequence; sync_counters; restart", "goals": list(R["goals"])})
+
+    ck.guarded("sync_accept_sync_reload", reg5)
+
     for same in (True, False):
         def reg3(same=same):
             params = {"same_user": same}
@@ -436,5 +466,5 @@ def rebuild(ck, driver, params):
     if driver == "cleanup":
         return lambda s, obs: build_cleanup(ck, s, obs)
     if driver == "persist":
-        return lambda s, obs: build_persist(ck, s, obs)
+        return lambda s, obs: build_persist(ck, s, obs, bool(params.get("history")))
     return lambda s, obs: build_validate(ck, s, obs)
